@@ -66,19 +66,26 @@ def assertValuesLowerThan2PowN (s : St F) (values : List Cell) (n : Nat) : St F 
 
 /-! ## decomposition/chip.rs -/
 
+/-- Rows written by `decompose_core`: the chain of `assign_linear_combination_aux` with
+`nr_pow2range_cols` limbs per row and coefficients `2^shift` (0 for zero-sized limbs), each row
+tagged with the size of the first limb of its chunk (`tags = limb_sizes.chunks(nr).map(|x| x[0])`,
+attached from the last row backwards in the Rust code). -/
+def decompRows (nr : Nat) (sizes : List Nat) (shift : Nat) : List (Row F) :=
+  let chunk := sizes.take nr
+  let coeffs : List F := (limbCoeffsAux shift chunk).map (fun (n : Nat) => (n : F))
+  if sizes.length ≤ nr ∨ nr = 0 then [{ lcRow coeffs 0 0 with tag := chunk.head? }]
+  else { lcRow coeffs 1 0 with tag := chunk.head? } :: decompRows nr (sizes.drop nr) (shift + chunk.sum)
+termination_by sizes.length
+decreasing_by simp only [List.length_drop]; omega
+
 /-- chip.rs: `decompose_core` — a linear-combination chain with `nr_pow2range_cols` terms per
 row, every row range-checked with the limb size of its chunk. Returns the cell holding the
 recomposed value and the limb cells of non-zero size. -/
 def decomposeCore (s : St F) (sizes : List Nat) : (Cell × List Cell) × St F :=
   let nr := s.nrCols
-  let coeffs : List F := (limbCoeffs sizes).map (fun (n : Nat) => (n : F))
-  let rows := lcRows nr coeffs 0
-  let rows := rows.zipIdx.map (fun (row, j) =>
-    match sizes[j * nr]? with
-    | some t => { row with tag := some t }
-    | none => row)
+  let rows : List (Row F) := decompRows nr sizes 0
   let (s, r) := s.addRegion rows
-  let tags := (List.range rows.length).filterMap (fun j => sizes[j * nr]?)
+  let tags := rows.filterMap (·.tag)
   let s := tags.foldl (fun s t => s.queryTag t) s
   let limbs := (sizes.zipIdx.filter (fun p => p.1 ≠ 0)).map (fun p => lcLimb nr r 0 p.2)
   ((advc r 0 0, limbs), s)
